@@ -98,7 +98,7 @@ func (m *arMember) expMode() string {
 }
 
 var arNameStock = []string{"debian-binary", "control.tar.gz", "data.tar.xz", "_gpgorigin", "a", "x.o", "hello.txt", "0123456789abcdef", "dir/file", "usr/share/doc/ab", "a/b/c"}
-var arModes = []string{"100644", "100755", "644", "40755", "0"}
+var arModes = []string{"100644", "100755", "644", "40755", "0", "0644", "000755", "00100644", "000"}
 
 func genArMember(t *rt.Tape, r *rt.Run, idx int, last bool) *arMember {
 	m := &arMember{}
